@@ -31,7 +31,8 @@ out = [static.rstrip(), "", "### 9.4 Independently written changes (`seeded/<id>
 for r in rows:
     out.append("| %s | %s | %s | %s | %s |" % r)
 n_all = len(rows); n_det = sum(1 for r in rows if r[3] != "**none**")
-out += ["", "%d of %d independently written changes are caught by at least one check (quick tier, one seed)." % (n_det, n_all), ""]
+n_thor = sum(1 for r in rows if r[3] != "**none**" and all("thorough" in x for x in r[3].split(", ")))
+out += ["", "%d of %d independently written changes are caught by at least one check: %d by the quick tier at one seed, %d only by the thorough tier, %d not at all (§9.3)." % (n_det, n_all, n_det - n_thor, n_thor, n_all - n_det), ""]
 
 out += ["### 9.5 Own mutants (DESIGN §5.1, `mutants/*.diff`)", "", "| mutant | caught by |", "|---|---|"]
 try:
